@@ -12,3 +12,12 @@ for c in 956b983 cb88ef7 7291dd1 040007d 20eda81 ac2c43d 2c5ad48 4f65dc5 8ca4556
   done
   git checkout -- .
 done
+# 1fb55eb (expr parentheses) was later touched by 281ee41 (word postfix operators): revert the later one first
+for combo in "281ee41" "281ee41 1fb55eb"; do
+  ok=1; for c in $combo; do git show $c | git apply -R || ok=0; done
+  if [ $ok = 1 ]; then
+    out=$(cd /verif && ./check C12 --tier quick 2>&1); rc=$?
+    echo "revert $combo -> C12 exit=$rc violations=$(echo "$out" | grep -c '^VIOLATION') :: $(echo "$out" | grep -m1 'what:' | cut -c1-160)"
+  else echo "$combo: reverse patch does not apply"; fi
+  git checkout -- .
+done
